@@ -432,6 +432,42 @@ pub fn run(ctx: &mut Ctx) {
             ctx.count_n("degenerate_param_decodes", m.decodes - d0);
         }
     }
+    // --- zero-size items in the vector helpers: decoding must terminate (a non-empty vector of
+    // items that consume no input cannot exist). Run in a helper thread with a generous timeout so
+    // that a regression shows up as a recorded violation rather than as a hung shard.
+    if ctx.shard == 1 % ctx.nshards {
+        use prio::codec::{decode_fixlen_items, decode_u16_items, decode_u32_items, decode_u8_items};
+        use std::io::Cursor;
+        let cases: Vec<(&str, Vec<u8>)> = vec![
+            ("decode_u8_items<()>", vec![3, 1, 2, 3]),
+            ("decode_u8_items<()>", vec![0]),
+            ("decode_u16_items<()>", vec![0, 2, 9, 9]),
+            ("decode_u32_items<()>", vec![0, 0, 0, 1, 7]),
+            ("decode_fixlen_items<()>", vec![1, 2, 3, 4]),
+        ];
+        for (name, bytes) in cases {
+            ctx.trace(|| format!("decode|{name}|nonzero-length input={}", hex(&bytes)));
+            let (tx, rx) = std::sync::mpsc::channel();
+            let b = bytes.clone();
+            let which = name.to_string();
+            std::thread::spawn(move || {
+                let mut c = Cursor::new(&b[..]);
+                let r: Result<usize, String> = match which.as_str() {
+                    "decode_u8_items<()>" => decode_u8_items::<(), ()>(&(), &mut c).map(|v| v.len()).map_err(|e| e.to_string()),
+                    "decode_u16_items<()>" => decode_u16_items::<(), ()>(&(), &mut c).map(|v| v.len()).map_err(|e| e.to_string()),
+                    "decode_u32_items<()>" => decode_u32_items::<(), ()>(&(), &mut c).map(|v| v.len()).map_err(|e| e.to_string()),
+                    _ => decode_fixlen_items::<(), ()>(b.len(), &(), &mut c).map(|v| v.len()).map_err(|e| e.to_string()),
+                };
+                let _ = tx.send(r);
+            });
+            ctx.eval();
+            match rx.recv_timeout(std::time::Duration::from_secs(20)) {
+                Ok(_) => ctx.count("zero_size_item_decodes_terminated"),
+                Err(_) => ctx.violation(format!("hang|decode|{name}|nonzero-length"), "decoding a vector of zero-size items did not terminate within 20 s (7-byte input)",
+                    json!({"decoder": name, "input": hex(&bytes)})),
+            }
+        }
+    }
     ctx.evals(m.decodes);
     ctx.count_n("decodes", m.decodes);
     ctx.count_n("decodes_accepted", m.ok);
